@@ -55,6 +55,7 @@ def check(rep, model, tier):
     # targeted queries on the un-trimmed scenario (first_extrema=None), both pad settings
     for pad in (True, False):
         impl, ctx = keep[('None', pad, 'n_cycles')]
+        impl = T.strip_nd(impl) if impl is not None else impl
         inst = f'pad={pad}'
         if impl is None or impl[0] != 'tuple' or len(impl[1]) != 2:
             rep.violation('PROVENANCE', inst, site, expected='a (peaks, troughs) pair', found=T.brief(impl, 200) if impl else 'no value is returned on this path (raises)')
